@@ -287,6 +287,20 @@ pub mod cases {
             END"],
             checks: &[Has("SetOf::from_vec(alloc::vec![Integer::from(1i128),Integer::from(1i128),Integer::from(2i128)])"), Has("alloc::vec![Integer::from(3i128),Integer::from(3i128),Integer::from(3i128)]"),
                       Has("SetOf::from_vec(alloc::vec![true,true])")] },
+        // ---- C04 / C06 (fix 24): a chain of equal operators followed by a weaker one is read left to right: `a ^ b ^ c | d` = `((a ^ b) ^ c) | d`
+        Case { ob: "C04.cases.chain_of_intersections_followed_by_a_union_keeps_the_union_operand", srcs: &["M DEFINITIONS AUTOMATIC TAGS ::= BEGIN
+            A ::= INTEGER (1..10 ^ 2..20 ^ 3..30 | 50)
+            B ::= INTEGER (1..10 ^ 2..20 ^ 3..30 ^ 4..40 | 50)
+            C ::= INTEGER (50 | 1..10 ^ 2..20 ^ 3..30)
+            D ::= INTEGER (1 | 2 | 3..4 ^ 4..9 ^ 4..5 | 60)
+            S ::= SEQUENCE { f INTEGER (0..10 ^ 0..10 ^ 0..10 | 1000), o OCTET STRING (SIZE (1..4 ^ 2..4 ^ 3..4 | 9)) }
+            END"],
+            checks: &[AttrsHave("pubstructA(", "value(\"3..=50\")"), AttrsHave("pubstructB(", "value(\"4..=50\")"), AttrsHave("pubstructC(", "value(\"3..=50\")"), AttrsHave("pubstructD(", "value(\"1..=60\")"),
+                      ItemHas("pubstructS{", "#[rasn(value(\"0..=1000\"))]pubf:"), ItemHas("pubstructS{", "#[rasn(size(\"3..=9\"))]pubo:")] },
+        Case { ob: "C06.cases.width_covers_the_union_operand_after_a_chain_of_intersections", srcs: &["M DEFINITIONS AUTOMATIC TAGS ::= BEGIN
+            S ::= SEQUENCE { f INTEGER (0..10 ^ 0..10 ^ 0..10 | 1000), g INTEGER (0..10 ^ 0..10 | 1000), h INTEGER (0..10 ^ 0..10 ^ 0..10) }
+            END"],
+            checks: &[ItemHas("pubstructS{", "pubf:u16"), ItemHas("pubstructS{", "pubg:u16"), ItemHas("pubstructS{", "pubh:u8")] },
         // ---- C14 / C13: an empty comment `----` ends at its own closing `--`
         Case { ob: "C14.cases.empty_comment_does_not_hide_the_items_after_it", srcs: &["M DEFINITIONS AUTOMATIC TAGS ::= BEGIN
             T ::= ENUMERATED { a, ---- b(5),\n c, ..., d }
